@@ -206,15 +206,18 @@ impl<K: Hash + Eq + Clone, V: Clone, E: OnEvictCallback + Clone, S: BuildHasher 
             HashMap::with_capacity_and_hasher(self.map.capacity(), self.map.hasher().clone()),
             self.on_evict.clone(),
         );
-        for entry in self.map.values() {
+        // walk the list from the least to the most recently used entry (not the hash index,
+        // whose iteration order is arbitrary) so that the clone keeps the recency order
+        let mut node = unsafe { (*self.tail).prev };
+        while node != self.head {
             let (k, v) = unsafe {
-                let entry = entry.as_ref();
                 (
-                    entry.key.assume_init_ref().clone(),
-                    entry.val.assume_init_ref().clone(),
+                    (*node).key.assume_init_ref().clone(),
+                    (*node).val.assume_init_ref().clone(),
                 )
             };
             cloned.put(k, v);
+            node = unsafe { (*node).prev };
         }
         cloned
     }
